@@ -36,8 +36,8 @@ MUTANTS = [
     M("c12-skip-zero-output", "C12", "break", [(CAL, "            output_scale = absmax_scale(qoutput, module.activation_qtype, axis=None)\n", "            output_scale = absmax_scale(qoutput, module.activation_qtype, axis=None)\n            if not torch.any(output_scale > 0):\n                return output\n")], "C12.R4"),
     # ---------------- C13 shared container of hook handles
     M("c13-class-level-handles", "C13", "break", [(CAL, "class Calibration(TorchFunctionMode):\n", "class Calibration(TorchFunctionMode):\n    _handles = []\n"),
-                                                   (CAL, "        self.pre_handle = register_module_forward_pre_hook(self.calibrate_input)\n        self.post_handle = register_module_forward_hook(self.calibrate_output)", "        self._handles.append(register_module_forward_pre_hook(self.calibrate_input))\n        self._handles.append(register_module_forward_hook(self.calibrate_output))"),
-                                                   (CAL, "        self.pre_handle.remove()\n        self.post_handle.remove()", "        while self._handles:\n            self._handles.pop().remove()")], "C13.R1"),
+                                                   (CAL, "        self.hook_handles.append(\n            (\n                register_module_forward_pre_hook(self.calibrate_input),\n                register_module_forward_hook(self.calibrate_output),\n            )\n        )", "        self._handles.append(register_module_forward_pre_hook(self.calibrate_input))\n        self._handles.append(register_module_forward_hook(self.calibrate_output))"),
+                                                   (CAL, "        for handle in self.hook_handles.pop():\n            handle.remove()", "        while self._handles:\n            self._handles.pop().remove()")], "C13.R1"),
     # ---------------- C15.R11 / R12
     M("c15-pack-shift-unwidened", "C15", "break", [(AWQ, "            packed_col = unpacked[:, col * pack_num + order_map[i]].to(torch.int32)", "            packed_col = unpacked[:, col * pack_num + order_map[i]]")], "C15.R11"),
     M("c15-packv2-shift-unwidened", "C15", "break", [(AWQ, "    packed = packed.to(torch.int32)\n    packed = packed[..., 0] |", "    packed = packed[..., 0] |")], "C15.R11"),
@@ -47,4 +47,11 @@ MUTANTS = [
     M("c12-marker-not-initial-value", "C12", "break", [(CAL, "    if torch.all(scale == 1):", "    if torch.all(scale == 0):")], "C12.R2"),
     M("c12-first-batch-flag-on-context", "C12", "break", [(CAL, "def _updated_scale(scale, new_scale, momentum):\n    if torch.all(scale == 1):", "def _updated_scale(scale, new_scale, momentum, first=False):\n    if first:"),
                                                           (CAL, "                module.input_scale = _updated_scale(module.input_scale, input_scale, self.momentum)", "                first = getattr(self, \"_seen_in\", None) is None\n                self._seen_in = True\n                module.input_scale = _updated_scale(module.input_scale, input_scale, self.momentum, first)")], "C12.R2"),
+    # ---------------- C13.R1 re-entrancy (finding F32)
+    M("c13-handles-in-plain-attributes-again", "C13", "break", [(CAL, "        self.hook_handles.append(\n            (\n                register_module_forward_pre_hook(self.calibrate_input),\n                register_module_forward_hook(self.calibrate_output),\n            )\n        )", "        self.pre_handle = register_module_forward_pre_hook(self.calibrate_input)\n        self.post_handle = register_module_forward_hook(self.calibrate_output)"),
+                                                              (CAL, "        for handle in self.hook_handles.pop():\n            handle.remove()", "        self.pre_handle.remove()\n        self.post_handle.remove()")], "C13.R1"),
+    M("c13-exit-drains-all-entries", "C13", "break", [(CAL, "        for handle in self.hook_handles.pop():\n            handle.remove()", "        while self.hook_handles:\n            for handle in self.hook_handles.pop():\n                handle.remove()")], "C13.R1"),
+    M("c13-refactor-two-appends", "C13", "refactor", [(CAL, "        self.hook_handles.append(\n            (\n                register_module_forward_pre_hook(self.calibrate_input),\n                register_module_forward_hook(self.calibrate_output),\n            )\n        )", "        self.hook_handles.append(register_module_forward_pre_hook(self.calibrate_input))\n        self.hook_handles.append(register_module_forward_hook(self.calibrate_output))"),
+                                                      (CAL, "        for handle in self.hook_handles.pop():\n            handle.remove()", "        self.hook_handles.pop().remove()\n        self.hook_handles.pop().remove()")]),
+    M("c13-refactor-local-entry", "C13", "refactor", [(CAL, "        for handle in self.hook_handles.pop():\n            handle.remove()", "        handles = self.hook_handles.pop()\n        for handle in handles:\n            handle.remove()")]),
 ]
